@@ -7,4 +7,5 @@ CONSTANTS
   Fmts = {"xlsx", "pptx", "epub"}
   Wide = FALSE
 INVARIANTS TypeOK ValidPackage DeclaredPrefix DeclaredOrder OwnPage
+CONSTRAINT Emit
 CHECK_DEADLOCK FALSE
